@@ -105,6 +105,9 @@ def cases(tier: str, seed: int) -> List[Dict[str, Any]]:
         for n in (1, 2, 5):
             out.append({"kind": "depth", "form": form, "n": n})
             if form != "TransformerStack":
+                for hist in ("clones", "clones_copy", "clones_copy_copy", "copy_copy"):
+                    out.append({"kind": "depth", "form": form, "n": n, "history": hist})
+            if form != "TransformerStack":
                 out.append({"kind": "depth", "form": form, "n": n, "frozen": True})
     for opt in _prod({"hidden": [8], "heads": [1, 2, 4], "is_causal": [False, True], "dropout_p": [0.0, 0.5],
                       "mult": [1.0, 0.25, 3.0], "train": [True, False]}):
@@ -445,6 +448,15 @@ def _depth(case: Dict[str, Any]) -> Dict[str, Any]:
     viol: List[Dict[str, str]] = []
     ident = f"{form}|depth"
     mods = [uu.Linear(3, 3, bias=True) for _ in range(n)]
+    hist = case.get("history", "")
+    if hist.startswith("clones"):
+        import copy
+
+        proto = uu.Linear(3, 3, bias=True)
+        mods = [copy.deepcopy(proto) for _ in range(n)]  # the standard clone idiom
+        ident += f"|{hist}"
+    elif hist:
+        ident += f"|{hist}"
     frozen = bool(case.get("frozen"))
     if frozen:
         ident += "|frozen_layer"
@@ -460,6 +472,14 @@ def _depth(case: Dict[str, Any]) -> Dict[str, Any]:
         from unit_scaling._modules import TransformerStack
 
         c = TransformerStack(layers=n, hidden_size=4, heads=1, is_causal=True)
+    if hist:
+        import copy
+
+        for _ in range(hist.count("copy")):
+            c = copy.deepcopy(c)  # snapshot / EMA copy of the whole container
+        ids = [id(p_) for p_ in c.parameters()]
+        if len(set(ids)) != 2 * n:
+            viol.append({"key": ident + "|copied_layers_share_parameters", "msg": f"{len(set(ids))} distinct parameters for {n} layers"})
     if len(c) != n:
         viol.append({"key": ident + "|length", "msg": f"{len(c)} != {n}"})
     cnt = 0
